@@ -298,6 +298,14 @@ impl State {
     /// Handle a connection-level error.
     pub fn handle_error(&mut self, err: &proto::Error) {
         match self.inner {
+            // A reset that is only scheduled has not reached the wire; the
+            // connection-level error supersedes it. The send queue of the
+            // stream is cleared by the caller, so sending the RST_STREAM
+            // later could put it on a stream whose HEADERS were never sent.
+            Closed(Cause::ScheduledLibraryReset(..)) => {
+                tracing::trace!("handle_error; scheduled reset superseded; err={:?}", err);
+                self.inner = Closed(Cause::Error(err.clone()));
+            }
             Closed(..) => {}
             _ => {
                 tracing::trace!("handle_error; err={:?}", err);
